@@ -692,7 +692,7 @@ class TrFn(Tr):
             self.consts = saved
 
 
-def translate_function(path, qualname, lean_name, vec_params=None, scalar_params=None, drop_params=("cls", "self"), consts=None,
+def translate_fn(path, qualname, lean_name, vec_params=None, scalar_params=None, drop_params=("cls", "self"), consts=None,
                        funcs=None, extra_args=(), ret_type=None, tree=None):
     """`def <lean_name> (<extra_args> <params> : R) := …` for the whole body of a straight-line function.
     vec_params: {python parameter: [lean scalar argument names]}"""
